@@ -83,9 +83,9 @@ prop("C13", level="proof",
                 "non-empty, or externals are excluded and an external pattern is given (None and the empty tuple both mean 'no pattern'), raises ValueError exactly when the request is "
                 "otherwise valid and module_path is not root_path or below it (assumed pathlib relative_to contract), and in all those cases the graph constructor is never called "
                 "(ghost log of constructor calls unchanged), so no architecture exists that could produce a verdict; get_evaluable_architecture_for_module_objects raises in exactly the "
-                "same cases on the modules' directories. Layer rules and diagram rules: bounded stand-ins against specification automata.",
+                "same cases on the modules' directories. Which names ARE nodes is proved on the graph constructor (NetworkxGraph.__init__: exactly the flattened modules, their dotted ancestors and the dotted ancestors of importers; never an importee that is not one of these), modulo the bounded truncation. Layer rules and diagram rules: bounded stand-ins against specification automata.",
      level_note=_RULE_NOTE + " Bounded (not proved): call chains of LayerRule / DiagramRule. Assumed for the entry points: pathlib.Path(s), Path.relative_to (ValueError iff not below), "
-                "os.sep, os.path.dirname, module.__file__; the graph constructor call as a frame-only placeholder contract (NetworkxGraph.__init__@ctor-call).",
+                "os.sep, os.path.dirname, module.__file__; in the entry-point proofs the graph constructor call is a recording placeholder contract (NetworkxGraph.__init__@ctor-call), the constructor itself is proved separately (NetworkxGraph.__init__).",
      explanation="No verdict from undefined or incomplete specifications: exact exceptional postconditions + builder contracts.",
      roots=["Rule.assert_applies", "C13_unknown_name_never_a_verdict", "C13_outcomes_exclusive", "C13_should_not_with_other_verb_is_contradictory",
             "get_evaluable_architecture", "get_evaluable_architecture_for_module_objects"],
@@ -130,8 +130,8 @@ prop("C02", level="other",
      level_text="Mixed. PROVED (string view): ImportConverter.convert yields exactly the imports of the import statements nested at ANY depth in ANY statement list (statements, except "
                 "handlers, match cases in any field) of the scanned files -- worklist invariant for unbounded nesting under the statement-tree unfolding schema; ImportConverter._convert: one "
                 "import per alias of 'import a.b.c [as x]', 'from P import n' names P.n when that is a scanned module and P otherwise, relative forms per alias with the same sub-module "
-                "preference; _adjust_with_root_prefix; get_parent_modules = dotted ancestors. BOUNDED: what ast.parse / ast.iter_child_nodes deliver for each grammar position, relative-import "
-                "resolution (rel_importee) and the composition down to graph edges: every statement-list position of the running interpreter's grammar x 24 import forms, all edges of every scan.",
+                "preference; _adjust_with_root_prefix; get_parent_modules = dotted ancestors; the Import classes (AbsoluteImport.__init__ with the inlined Import.__init__, the importer / importee / parent-list getters, RelativeImport._calculate_importee relative to the stored parent list). GRAPH CONSTRUCTION (names opaque, over the assumed networkx.DiGraph model, modulo the still bounded truncation flat = _flatten_graph_node): NetworkxGraph.__init__ / _initialise / _add_all_modules_as_nodes / _add_edges_within_module_hierarchy are under contract: the node set is EXACTLY the flattened names of the modules, of their dotted ancestors and of the dotted ancestors of importers -- no node is ever created for an importee or an importee's ancestor; every edge joins two nodes and is a hierarchy pair (flattened strict ancestor -> flattened ancestor-or-self of one module / importer / importee) or the flattened (importer, importee) pair of an import record; an edge with inherits=False is always such an import pair, inherits=True only sits on hierarchy pairs; every import between two differing flattened modules / module ancestors is an edge. _add_edges_within_module_hierarchy is characterised exactly (which adjacent pairs of parent_modules + [child] are linked, in list order). NOT proved: WHICH hierarchy pairs end up linked (the order of get_parent_modules' list is not under contract), the final inherits value of a pair that is both an import pair and a hierarchy pair, and the composition with the converter's records. BOUNDED: what ast.parse / ast.iter_child_nodes deliver for each grammar position, relative-import "
+                "resolution (rel_importee: RelativeImport.__init__ keeps an assumed constructor contract) and the composition down to graph edges: every statement-list position of the running interpreter's grammar x 24 import forms, all edges of every scan.",
      level_note="Assumed: ast node fields, ast.iter_child_nodes returns the directly nested statement-like nodes of every field, RelativeImport's importee function. " + _BND_NOTE + "ast.parse trusted.",
      technique=_BND_TECH, explanation="import statements vs edges", roots=["ImportConverter.convert", "ImportConverter._convert", "ImportConverter._adjust_with_root_prefix", "get_parent_modules"],
      bounded=[_b("projects", "bounded_import_edges")], trusted_base=_TB)
@@ -144,8 +144,7 @@ prop("C04", level="other",
                 "call): the module list handed to the constructor contains every scanned module and, with externals excluded, nothing else; the import list is the converter's output "
                 "for exactly the parsed files with the absolute-import prefix of the property ('' for module_path == root_path, else the dotted path of module_path's parent relative "
                 "to root_path's parent). Module-object entry point: raises in the same cases and satisfies literally the path entry point's postcondition on "
-                "dirname(root_module.__file__), dirname(module.__file__) with every option in its own position. BOUNDED: graph construction from the lists (nodes, hierarchy edges; the constructor "
-                "call is a frame-only placeholder contract), sub-directory scan = restriction of the whole-root scan (also sibling scans in fresh processes): random directory trees "
+                "dirname(root_module.__file__), dirname(module.__file__) with every option in its own position. GRAPH CONSTRUCTION (names opaque, over the assumed networkx.DiGraph model, modulo the still bounded truncation flat = _flatten_graph_node): NetworkxGraph.__init__ / _initialise / _add_all_modules_as_nodes / _add_edges_within_module_hierarchy are under contract: the node set is EXACTLY the flattened names of the modules, of their dotted ancestors and of the dotted ancestors of importers -- no node is ever created for an importee or an importee's ancestor; every edge joins two nodes and is a hierarchy pair (flattened strict ancestor -> flattened ancestor-or-self of one module / importer / importee) or the flattened (importer, importee) pair of an import record; an edge with inherits=False is always such an import pair, inherits=True only sits on hierarchy pairs; every import between two differing flattened modules / module ancestors is an edge. _add_edges_within_module_hierarchy is characterised exactly (which adjacent pairs of parent_modules + [child] are linked, in list order). NOT proved: WHICH hierarchy pairs end up linked (the order of get_parent_modules' list is not under contract), the final inherits value of a pair that is both an import pair and a hierarchy pair, and the composition with the converter's records. BOUNDED: the truncation itself, the COMPLETENESS of the hierarchy edges (every module linked to its direct parent; in the entry-point proofs the constructor call is a recording placeholder contract), sub-directory scan = restriction of the whole-root scan (also sibling scans in fresh processes): random directory trees "
                 "through the real entry points.",
      level_note="Assumed: pathlib (is_dir, iterdir, resolve as identity, suffix, str, Path(s), parent, relative_to, with_suffix('')), os.sep, os.path.dirname, module.__file__, open/read, ast.parse; "
                 "in Parser.parse's contract the module name is the function mod_name (its string definition is proved on Parser._get_module_name, linked by name; assumed: scanned paths lie below the root). " + _BND_NOTE +
@@ -168,10 +167,10 @@ prop("C08", level="proof",
      bounded=[_b("projects", "bounded_exclusions")], trusted_base=_TB)
 prop("C09", level="other",
      level_text="Mixed. PROVED: the limit arithmetic (_add_extra_levels_to_limit_if_root_and_module_path_differ: raised by the number of dotted components between root_path and module_path), "
-                "NetworkxGraph._create_node / _create_edge over flattened names (no edge to an unknown module, self edges dropped after flattening, single edge per pair). BOUNDED: the truncation "
+                "NetworkxGraph._create_node / _create_edge over flattened names (no edge to an unknown module, self edges dropped after flattening, single edge per pair). GRAPH CONSTRUCTION (names opaque, over the assumed networkx.DiGraph model, modulo the still bounded truncation flat = _flatten_graph_node): NetworkxGraph.__init__ / _initialise / _add_all_modules_as_nodes / _add_edges_within_module_hierarchy are under contract: the node set is EXACTLY the flattened names of the modules, of their dotted ancestors and of the dotted ancestors of importers -- no node is ever created for an importee or an importee's ancestor; every edge joins two nodes and is a hierarchy pair (flattened strict ancestor -> flattened ancestor-or-self of one module / importer / importee) or the flattened (importer, importee) pair of an import record; an edge with inherits=False is always such an import pair, inherits=True only sits on hierarchy pairs; every import between two differing flattened modules / module ancestors is an edge. _add_edges_within_module_hierarchy is characterised exactly (which adjacent pairs of parent_modules + [child] are linked, in list order). NOT proved: WHICH hierarchy pairs end up linked (the order of get_parent_modules' list is not under contract), the final inherits value of a pair that is both an import pair and a hierarchy pair, and the composition with the converter's records. BOUNDED: the truncation "
                 "itself (_flatten_graph_node: split/join) and the quotient / verdict-preservation claims: for random trees, every module_path depth and every k, the level-limited architecture is compared with the truncation quotient of the full one, and rule "
                 "verdicts on names at or above the limit are compared between the two.",
-     level_note=_BND_NOTE, technique=_BND_TECH, explanation="quotient graph", roots=["_add_extra_levels_to_limit_if_root_and_module_path_differ", "NetworkxGraph._create_edge", "NetworkxGraph._create_node"], bounded=[_b("projects", "bounded_level_limit")], trusted_base=_TB)
+     level_note=_BND_NOTE, technique=_BND_TECH, explanation="quotient graph", roots=["_add_extra_levels_to_limit_if_root_and_module_path_differ", "NetworkxGraph._create_edge", "NetworkxGraph._create_node", "NetworkxGraph.__init__"], bounded=[_b("projects", "bounded_level_limit")], trusted_base=_TB)
 prop("C10", level="proof",
      level_text="Proved (string view) for every stage that implements the external options: ExternalImportFilter.filter keeps every import whose importee is internal in EVERY "
                 "configuration and drops an external import iff the importee or one of its dotted ancestors matches a pattern; ImporteeModuleCalculator adds exactly the importees and their "
